@@ -35,7 +35,8 @@ def elem(cont, q="q0"):
     return Sym("at", vkey(cont), Poly.atom(q).key())
 
 
-def run(ck, facts, tier):
+def run(ck, facts, tier, only=None):
+    """only: None or a set of rule ids to run (when included by C04/C05: the eligibility predicates R06.0-R06.2)"""
     hk = dict(date_hooks(), **{"@elem": gather.container_elem})
     # ---------------- R06.0 the derived predicates
     r0 = ck.rule("R06.0", "is_bus_day = is_weekday and not is_holiday; is_non_bus_day = not is_bus_day (the vocabulary of the other rules)", floor=2)
@@ -104,6 +105,8 @@ def run(ck, facts, tier):
         except Unsupported as e:
             ck.fail(r2, "Cal::" + method, "rule could not be established (%s)" % e)
 
+    if only is not None and "R06.3" not in only:
+        return
     # ---------------- R06.3 name parsing
     r3 = ck.rule("R06.3", "NamedCal::try_new: lower-casing precedes splitting on '|'; more than 2 parts -> Err; calendars <- every ','-piece of part 0 (one lookup per "
                           "piece, errors propagated by ?), settlement calendars <- part 1 or None; the stored name is the lower-cased input", floor=5)
